@@ -226,6 +226,7 @@ func checkC07(w *World, r *Report) {
 		r.note("no hand-written escape table found (only the library routine is used)")
 	}
 	checkChainsApplied(w, r)
+	checkEscapeNeverRebound(w, r, escapeFn)
 }
 
 func objName(o types.Object) string {
@@ -559,4 +560,61 @@ func checkChainsApplied(w *World, r *Report) {
 		}
 	}
 	r.floor("loops applying a filter chain", n, 1)
+}
+
+// checkEscapeNeverRebound — R07.6: the names escape and e mean the registered escape routine in
+// every environment the package builds.  Outside the registration table no code of the package
+// stores anything under the constant key "escape" or "e" into a filter table (a per-template
+// "view" of the environment in which escaping is switched off makes the same source — and the
+// same included partial — escape or not depending on the name of the template that was asked
+// for).  Users re-registering a filter through AddFilter use a non-constant key and are their own
+// responsibility.
+func checkEscapeNeverRebound(w *World, r *Report, escapeFn *types.Func) {
+	filterT := w.named("FilterFunc")
+	n, bad := 0, 0
+	for _, fn := range w.pkgFuncs() {
+		instrsOf(fn, func(in ssa.Instruction) {
+			mu, ok := in.(*ssa.MapUpdate)
+			if !ok {
+				return
+			}
+			mt, ok := mu.Map.Type().Underlying().(*types.Map)
+			if !ok || !types.Identical(mt.Elem(), filterT) {
+				return
+			}
+			key, ok := constString(mu.Key)
+			if !ok || (key != "escape" && key != "e") {
+				return
+			}
+			n++
+			// the registration table itself: the stored value is (a method value of) the registered function
+			val := mu.Value
+			if ct, ok := val.(*ssa.ChangeType); ok {
+				val = ct.X
+			}
+			same := false
+			switch x := val.(type) {
+			case *ssa.MakeClosure:
+				if bf, ok := x.Fn.(*ssa.Function); ok {
+					if m, ok := bf.Object().(*types.Func); ok && m == escapeFn {
+						same = true
+					}
+				}
+			case *ssa.Function:
+				if m, ok := x.Object().(*types.Func); ok && m == escapeFn {
+					same = true
+				}
+			}
+			if same {
+				r.ok("R07.6", ssaName(fn), `filter table entry "`+key+`"`, w.posOf(in.Pos()), "bound to the registered escape routine", true)
+			} else {
+				bad++
+				r.bad("R07.6", ssaName(fn), `filter table entry "`+key+`"`, w.posOf(in.Pos()), "a filter table gets another function under the name "+key+" than the registered escape routine: in environments built this way `|"+key+"` no longer neutralises < > & \" ', and the same template text escapes or not depending on which environment renders it")
+			}
+		})
+	}
+	r.Counts["stores under the names escape/e into filter tables"] = n
+	if n == 0 {
+		r.note("the escape names are only bound in the registration table literal")
+	}
 }
